@@ -68,6 +68,18 @@ CHECKS = {
          "All 3,652,425 days of wall-clock years 0-9999 are rendered (with cycling whole-minute offsets, random times, leap seconds) and compared with the reference text and round-tripped; the reader sees ~5e6 generated valid strings covering every optional branch of the grammar systematically (all 100 two-digit years, all 1000 three-digit years, every case pattern of every zone name, all 2879 numeric zones, nested/escaped comments) plus mutated and arbitrary strings. Sampling of the string space; exhaustive over days for the writer.",
          "Trusted: reference renderer and lenient reference reader in harness/src/props/c11.rs. Forms the RFC allows but the property does not list (class X) are only value-checked if accepted.",
          "DESIGN.md §4 C11"),
+ "C12": ("differential runtime monitor: an independent reference strftime renderer (one rule per rustdoc table row, fields from the reference calendar on wall-clock integers) evaluated next to every real format call; full product of catalogue values x all 121 valid (specifier, modifier) pairs, walks over whole year ranges / every second / every one-second offset, random format strings; failure monitor for unknown specifiers and missing fields",
+         "Every documented specifier with every allowed padding modifier is rendered for catalogue values (negative, 5-6-digit years, every year class, ISO spill days, hours 0/11/12/13/23, leap seconds, offsets with seconds around the 30 s rounding point) and compared with the reference text; date specifiers are walked over ~1700 whole years (thorough ~4500), time specifiers over all 86400 seconds, offset specifiers over all 172,799 one-second offsets; random strings of 2-12 items check composition, literals and failure. 1.5e7 evaluations quick, 4e8 thorough.",
+         "Trusted: the reference renderer in harness/src/props/c12.rs (self-tested on all rustdoc examples). Where docs and tests disagree only the common part is asserted (ambiguity table in the module header: %f padding, %Z, space-padded out-of-range years, modifiers on %s/%q/%w/%u, offsets exactly 30 s from a minute). %y/%g are not generated for negative years (property).",
+         "DESIGN.md §4 C12"),
+ "C13": ("runtime round-trip monitor format -> parse_from_str / parse_and_remainder over a generated family of unambiguous format strings (every invertible specifier with every padding modifier, all date forms, 12/24 h clocks, fractions, %z/%:z/%+/%s) with per-format value domain and printed precision, plus letter-case and white-space perturbations of the formatted text",
+         "12,800 (thorough 256,000) generated formats plus 82 canonical ones are each applied to hundreds of boundary-biased values (signed and 5-6-digit years, pivot years, ISO spill, ordinal 366, weeks 0/53, leap seconds, hours 0/12, negative/zero/second-bearing offsets, pre-1970 instants, wall dates in the headroom); the parsed value must equal the value truncated to the printed precision, the remainder must be exact, and perturbed text must parse to the same value. 1.9e7 evaluations quick, 5e8 thorough. Sampling of formats x values.",
+         "Trusted: reference calendar/instants; the generator's domain/precision bookkeeping (self-tested). One known finding (wall date in the headroom cannot be parsed back). Print-only %::z/%:::z/%Z and read-only %#z are exercised separately with weaker expectations.",
+         "DESIGN.md §4 C13"),
+ "C15": ("panic/overflow monitor + validity monitor + step monitor + hang watchdog around a table of ~210 public fallible entry points driven with integer extremes, range-end / leap-second / headroom receivers, hostile strings and format strings (every 2- and 3-byte %-combination, truncated specifiers, multi-byte, 4 KiB), in the overflow-checking and the plain lane",
+         "Every call runs under catch_unwind (a panic, including an arithmetic overflow or a failed debug_assert in the checked lane, is a violation unless the site is on the explicit allow-list of documented panics), every returned value is validated against the reference calendar and the type's range, StrftimeItems iteration must stop within 8*len+16 items, and a call that does not return within 20 s is reported as a hang. The main constructors get the full cross product of 26 i32 x 32 u32 x 32 u32 catalogue values. The panic monitors of all other properties' drivers add to this.",
+         "Trusted: the allow-list (only SubsecRound::round_subsecs when its carry leaves the range). Operators and deprecated panicking constructors are not in the table. Sampling of argument space concentrated at type and range extremes.",
+         "DESIGN.md §4 C15"),
  "C20": ("runtime round-trip monitor through serde_json (self-describing) and bincode (positional) for every serializable type, plus exact-integer monitor for the sixteen ts_* helper modules fed through visit_i64/visit_u64/JSON/bincode with per-unit boundary catalogues; panic monitor on every call",
          "Exhaustive for Weekday/Month; strided walk over all dates; every second of the day; all 2879 whole-minute offsets; range ends with headroom; TimeDelta range ends and raw out-of-range pairs; each ts_* module must write exactly the floor count (i128 oracle), read it back through four routes and reject out-of-range integers by value. ~1.1e7 evaluations quick, 6e8 thorough. Sampling elsewhere.",
          "Trusted: i128 instant oracle. Leap seconds only on :59 and excluded from timestamp equalities (property). Three known findings (sub-minute offsets; wall date in the headroom) are listed in known_findings.json. DateTime<Local> is exercised with the process zone only.",
